@@ -331,11 +331,16 @@ class Rig(object):
                 # documented: Illegal function call outside the VIEW PRINT area (and a failing
                 # evaluation would print its message on the screen under test)
                 continue
-            got = self.s.evaluate(b'SCREEN(%d,%d)' % (r, c))
+            # both spellings of "the character": SCREEN(r,c) and SCREEN(r,c,0)
+            both = self.s.evaluate(b'SCREEN(%d,%d)*256!+SCREEN(%d,%d,0)' % (r, c, r, c))
+            got = None if both is None else int(both) >> 8
             exp = bytearray(rows[r - 1])[c - 1]
             if got is None:
                 viols.append(('screen-fn/error/%s' % name, 'SCREEN(%d,%d) failed' % (r, c)))
                 self.polluted = True
+            elif got == exp and int(both) & 255 != exp:
+                viols.append(('screen-fn/wrong-char-with-zero-flag/%s' % name,
+                              'SCREEN(%d,%d,0) = %r but the cell holds %r' % (r, c, int(both) & 255, exp)))
             elif got != exp:
                 viols.append(('screen-fn/wrong-char/%s' % name,
                               'SCREEN(%d,%d) = %r but the cell holds %r' % (r, c, got, exp)))
